@@ -178,8 +178,10 @@ def run_case(case):
                     else:
                         got = human_leaves(out)
                         # the human format prints only non-empty tokens reliably; compare those
-                        w = [(p, x) for p, x in want if x != ""]
-                        got = [(p, x) for p, x in got if x != ""]
+                        # the human format is not a structured format (unparsable nodes carry extra
+                        # annotation lines): compare the sequence of (token type, text) only
+                        w = [(p[-1], x) for p, x in want if x != ""]
+                        got = [(p[-1], x) for p, x in got if x != ""]
                 except Exception as e:
                     fails.append({"sig": f"cli_{fmt}_unreadable:{type(e).__name__}", "detail": {"out": out[:300]}})
                     continue
